@@ -596,9 +596,10 @@ func refStep(state string, r rune, relax map[string]bool) refAct {
 		}
 		return afterNumber("Float")
 	case "hex0":
-		// the property does not define the hex forms beyond "0x hex"; the project's own tests pin: no leading zeros
+		// "0x hex": 0x followed by hexadecimal digits. The lexer (pinned by the project's own tests) rejects a second digit
+		// after a leading zero digit (0x0F): the named relaxation hex-leading-zero
 		switch {
-		case r == '0':
+		case r == '0' && relax["hex-leading-zero"]:
 			return g("hexZ")
 		case isHexR(r):
 			return g("hexN")
@@ -663,7 +664,7 @@ func refStep(state string, r rune, relax map[string]bool) refAct {
 	return bad
 }
 
-var lexRelaxations = []string{"exponent-plus-sign", "exponent-leading-zero"}
+var lexRelaxations = []string{"exponent-plus-sign", "exponent-leading-zero", "hex-leading-zero"}
 
 // ---- bisimulation ----
 
@@ -866,4 +867,5 @@ func runC04Lex(c *Ctx) {
 var relaxDoc = map[string]string{
 	"exponent-plus-sign":    "JSON numbers allow an explicit + in the exponent (1e+3); the lexer reports an error for it",
 	"exponent-leading-zero": "JSON numbers allow leading zeros in the exponent (1e01); the lexer reports an error for input `1e01`",
+	"hex-leading-zero":      "0x hex is 0x followed by hexadecimal digits; the lexer reports an error for a digit after a leading zero digit (`0x0F`)",
 }
